@@ -89,6 +89,10 @@ func vRunStallLayer1(c *vCase) bool {
 	rejected, flushStalled := 0, 0
 	firstRejectAfter := -1
 	naccepted := 0
+	var longStall time.Duration
+	if c.Idx%8 == 5 {
+		longStall = time.Duration(vPick(r, 1100, 2300, 3400, 5600)) * time.Millisecond
+	}
 	checkAll := func(what string) bool {
 		got, _ := g.snapshot()
 		want := accepted.Bytes()
@@ -180,6 +184,11 @@ func vRunStallLayer1(c *vCase) bool {
 					flushStalled++
 				}
 				d := time.Duration(200+r.Intn(2000)) * time.Microsecond
+				if longStall > 0 {
+					// a disk that hangs for seconds (longer than any plausible internal timeout): Flush must still mean "everything is out"
+					d, longStall = longStall, 0
+					c.Cov("l1_flush_stalled_for_seconds", 1)
+				}
 				go func() { time.Sleep(d); g.set(true) }()
 			}
 			if !vWatched(c, "asyncbufio.Flush", 20*time.Second, func() { aw.Flush() }) {
@@ -385,7 +394,8 @@ func vRunStallLayer2(c *vCase) bool {
 	if preRelease == "never-stalled" {
 		sink.release()
 	}
-	releaseAt := vPick(r, "first-reject", "after-rejects", "partly-full")
+	// "during-flush"/"during-close": the disk stays stalled, with the queue full, until Flush (Close) has been called
+	releaseAt := vPick(r, "first-reject", "after-rejects", "partly-full", "during-flush", "during-close")
 	var accepted []int
 	id := 0
 	rejects := 0
@@ -401,7 +411,10 @@ func vRunStallLayer2(c *vCase) bool {
 	}
 	released := preRelease == "never-stalled"
 	partlyAt := r.Intn(budget)
-	for i := 0; i < budget; i++ {
+	// the budget fits the present writers (one queue slot per record); a writer that packs several records
+	// into a slot needs more writes before the queue is full, so a stalled script keeps going until it sees a rejection
+	needReject := releaseAt != "partly-full"
+	for i := 0; i < budget || (!released && needReject && rejects == 0 && i < 300000); i++ {
 		err := sw.write(id)
 		if err == nil {
 			accepted = append(accepted, id)
@@ -412,6 +425,9 @@ func vRunStallLayer2(c *vCase) bool {
 			}
 		}
 		id++
+		if !released && rejects >= 1+(id%3) && (releaseAt == "during-flush" || releaseAt == "during-close") {
+			break
+		}
 		if !released {
 			if (releaseAt == "first-reject" && rejects == 1) || (releaseAt == "after-rejects" && rejects >= 5+r.Intn(20)) || (releaseAt == "partly-full" && i == partlyAt) {
 				sink.release()
@@ -424,21 +440,31 @@ func vRunStallLayer2(c *vCase) bool {
 			}
 		}
 	}
+	stalledOp := ""
 	if !released {
-		sink.release()
-	}
-	// flush with the consumer running: everything accepted so far must have reached the pipe
-	if !vWatched(c, "writer.Flush", 30*time.Second, func() { sw.flush() }) {
-		return false
-	}
-	accAtFlush := len(accepted)
-	flushSeen := sink.total()
-	// more records after the flush
-	for i := 0; i < r.Intn(30); i++ {
-		if sw.write(id) == nil {
-			accepted = append(accepted, id)
+		if rejects > 0 && (releaseAt == "during-flush" || releaseAt == "during-close") {
+			stalledOp = releaseAt
+			time.AfterFunc(time.Duration(20+r.Intn(60))*time.Millisecond, sink.release)
+			c.Cov("l2_"+stalledOp+"_with_full_queue", 1)
+		} else {
+			sink.release()
 		}
-		id++
+	}
+	accAtFlush, flushSeen := -1, 0
+	if stalledOp != "during-close" {
+		// flush (the consumer running, or released only while Flush waits): everything accepted so far must have reached the pipe
+		if !vWatched(c, "writer.Flush", 30*time.Second, func() { sw.flush() }) {
+			return false
+		}
+		accAtFlush = len(accepted)
+		flushSeen = sink.total()
+		// more records after the flush
+		for i := 0; i < r.Intn(30); i++ {
+			if sw.write(id) == nil {
+				accepted = append(accepted, id)
+			}
+			id++
+		}
 	}
 	if !vWatched(c, "writer.Close", 30*time.Second, func() { sw.close() }) {
 		return false
@@ -513,11 +539,13 @@ func vRunStallLayer2(c *vCase) bool {
 		return false
 	}
 	// the flush: everything accepted before Flush returned had reached the file (pipe) when it returned.
-	if flushSeen < hdrLen+accAtFlush*sw.recSize() {
+	if accAtFlush >= 0 && flushSeen < hdrLen+accAtFlush*sw.recSize() {
 		c.Violate("c07:l2-flush-incomplete", "%s: when Flush returned only %d bytes had reached the file, but the header (%d) and %d accepted records of %d bytes had been written before", what, flushSeen, hdrLen, accAtFlush, sw.recSize())
 		return false
 	}
-	c.Cov("l2_flush_checks", 1)
+	if accAtFlush >= 0 {
+		c.Cov("l2_flush_checks", 1)
+	}
 	c.Cov("l2_accepted", len(accepted))
 	c.Cov("l2_rejected", rejects)
 	if rejects > 0 {
@@ -556,11 +584,11 @@ func init() {
 		},
 		Run: vRunC07,
 		Meta: vMeta{Level: "fault_enumeration",
-			Rule: "3 of 4 cases: asyncbufio.Writer (queue depth 1..64 and the real 1000, flush interval 200us..1h) over a gated in-memory writer that blocks on command; producer issues 30-3000 writes of 1..9000-byte payloads with unique ids, random flushes (also while the gate is closed) and a final close. 1 of 4 cases: a real LJH2.2 / LJH3 / OFF writer whose file is a 4 KiB named pipe that the harness does not drain until the scripted moment (never stalled / from the header / after some records; released at the first rejection / after several / partly full), with record sizes 24..1016 bytes so the first rejection lands on different part indices; fault = the stall point; oracle = bytes at the sink are exactly the accepted payloads/records in order, whole records only, and complete when Flush/Close return",
+			Rule: "3 of 4 cases: asyncbufio.Writer (queue depth 1..64 and the real 1000, flush interval 200us..1h) over a gated in-memory writer that blocks on command; producer issues 30-3000 writes of 1..9000-byte payloads with unique ids, random flushes (also while the gate is closed, in 1 of 8 cases for 1.1-5.6 s) and a final close. 1 of 4 cases: a real LJH2.2 / LJH3 / OFF writer whose file is a 4 KiB named pipe that the harness does not drain until the scripted moment (never stalled / from the header / after some records; released at the first rejection / after several / partly full / only after Flush or Close has been called with the queue full), with record sizes 24..1016 bytes so the first rejection lands on different part indices; fault = the stall point; oracle = bytes at the sink are exactly the accepted payloads/records in order, whole records only, and complete when Flush/Close return",
 			Assumptions: []string{"Linux named-pipe semantics stand in for a stalling disk", "callers do not modify a buffer after handing it to Write (the record writers do not)"},
 			Guards: map[string]map[string]int{
-				"quick":    {"l1_cases_with_rejection": 40, "l1_flush_while_stalled": 20, "l1_flush_after_stalled_flush": 100, "l1_flushes": 500, "l2_cases_with_rejection": 30, "l2_ljh22": 10, "l2_ljh3": 10, "l2_off": 10, "l2_rejected": 500},
-				"thorough": {"l1_cases_with_rejection": 800, "l1_flush_while_stalled": 400, "l2_cases_with_rejection": 600, "l2_ljh22": 200, "l2_ljh3": 200, "l2_off": 200},
+				"quick":    {"l1_cases_with_rejection": 40, "l1_flush_while_stalled": 20, "l1_flush_after_stalled_flush": 100, "l1_flushes": 500, "l2_cases_with_rejection": 30, "l2_ljh22": 10, "l2_ljh3": 10, "l2_off": 10, "l2_rejected": 500, "l1_flush_stalled_for_seconds": 10, "l2_during-flush_with_full_queue": 3, "l2_during-close_with_full_queue": 3},
+				"thorough": {"l1_cases_with_rejection": 800, "l1_flush_while_stalled": 400, "l2_cases_with_rejection": 600, "l2_ljh22": 200, "l2_ljh3": 200, "l2_off": 200, "l1_flush_stalled_for_seconds": 200, "l2_during-flush_with_full_queue": 60, "l2_during-close_with_full_queue": 60},
 			}},
 	})
 }
